@@ -33,6 +33,10 @@ JUNK: list[tuple[str, Any]] = [
 DYN_JUNK = ["ref-ancestor", "copy-parent", "ref-self-component", "wrong-type"]
 
 SCHEMA_JUNK: list[tuple[str, Any]] = [
+    ("bool-true", True),    # boolean schemas are legal JSON Schema (3.1): `items: true`, `additionalProperties: false`, ...
+    ("bool-false", False),
+    ("int-one", 1),         # ... and junk that a lenient validator coerces to a boolean
+    ("str-yes", "yes"),
     ("array-no-items", {"type": "array"}),
     ("string-with-properties", {"type": "string", "properties": {"a": {"type": "integer"}}}),
     ("enum-mixed", {"enum": ["a", 1]}),
@@ -552,6 +556,27 @@ CORPUS: list[tuple[str, bytes]] = [
     ("components-null", b"{\"openapi\": \"3.0.0\", \"info\": {\"title\": \"x\", \"version\": \"1\"}, \"paths\": {}, \"components\": null}"),
     ("schemas-null", b"{\"openapi\": \"3.0.0\", \"info\": {\"title\": \"x\", \"version\": \"1\"}, \"paths\": {}, \"components\": {\"schemas\": null}}"),
 ]
+
+
+def add_yaml_native(doc: Any, variant: int = 0) -> Any:
+    """YAML-only: give every typed schema an `example` that is a NATIVE YAML scalar (an unquoted date, a timestamp,
+    a !!binary) - values a JSON document cannot contain but that the YAML loader hands to the generator as Python
+    date / datetime / bytes objects."""
+    import datetime
+
+    native = [datetime.date(2024, 1, 31), datetime.datetime(2024, 1, 31, 12, 30, 0), b"\x00\x01binary"][variant % 3]
+
+    def walk(x: Any) -> Any:
+        if isinstance(x, dict):
+            y = {k: walk(v) for k, v in x.items()}
+            if "type" in x and "example" not in x and isinstance(x.get("type"), (str, list)):
+                y["example"] = native
+            return y
+        if isinstance(x, list):
+            return [walk(v) for v in x]
+        return x
+
+    return walk(doc)
 
 
 def dumps(doc: Any, ser: str) -> bytes:
